@@ -2917,9 +2917,11 @@ static int scan_delim_string(struct scanner_s *scanner) {
     int result;
 
     for (;;) {
-        UChar *top = scanner->buffer + scanner->buffer_limit;
-
-        while (scanner->next_char < top) {
+        /*
+         * the buffer boundary must be re-evaluated on every iteration, because looking ahead past a delimiter
+         * (PEEK_CHAR) may refill, compact, or replace the buffer
+         */
+        while (scanner->next_char < (scanner->buffer + scanner->buffer_limit)) {
             UChar c;
 
             /* Scan and validate the next code unit, incrementing the column number as appropriate */
